@@ -285,6 +285,25 @@ claim('C05',
       'symbolic interpretation + exhaustive sign-case evaluation of decision tables; layout/axis-role rules',
       'DESIGN.md §4 C05')
 
+claim('C15',
+      'Partial, static: G1 for each neighbour direction of the one-pass labelling (W, S and for 8-connectivity SW, SE) '
+      'the domain guard, the mask read, the value comparison and the region-id read all use the same flat offset and '
+      'the guard is the one that offset needs (-1: i>0, -nx: j>0, -nx-1: both, -nx+1: i<nx-1 and j>0); G2 region ids '
+      'live in a fixed unsigned dtype with an overflow error, a fresh id is counted per unmatched pixel, two matching '
+      'neighbours keep the lower id and merge the pair, the final lookup is applied to every pixel; G3 every ring '
+      'returned by the boundary follower passes through the affine transform (when given) before it is stored - on '
+      'the exterior and on the hole path - and the transform is the 6-parameter affine map computed from the OLD '
+      'coordinates (store-to-load forwarding detects in-place hazards); G4 rings are closed (extra point allocated), '
+      'start orientations (exterior facing E, hole facing W) and the four corner offsets of the follower; G5 the '
+      'column value comes from the start pixel and a hole is attached to polygons[region-1]; G6 integer rasters are '
+      'matched with ==; G7 row-major flattening with nx columns, single-column workaround, argument wiring. NOT '
+      'decided (declined): correctness of the merge chain, hole attribution and boundary following for all '
+      'topologies, i.e. that the polygons are exactly the connected regions and rasterise back losslessly.',
+      'Trusted: nothing beyond the AST; the declined core needs invariants of the merge forest and of the turn rules '
+      'over all region topologies.',
+      'offset-consistency rule over neighbour tests + must-pass-through (transform) + symbolic affine-map check',
+      'DESIGN.md §4 C15')
+
 ALL = ['C%02d' % i for i in range(1, 20)]
 
 
